@@ -216,7 +216,7 @@ func checkShards[E algebra.PrimeGroupElement[E, S], S algebra.PrimeFieldElement[
 			pubs = append(pubs, ps)
 		}
 		slices.Sort(rs)
-		x.Case("")
+		x.Case(fmt.Sprintf("%s/A=%b", where, mask))
 		MA := M.SubRows(rs)
 		coef, spans := MA.Transpose().SolveRight(e0) // Σ coef_r · row_r == e0 ?
 		if spans != want {
